@@ -148,6 +148,11 @@ Definition in_guard (k : rt_case) : bool :=
   && fits (rc_conv k) (rc_universe k) (law_tbl (rc_table k) (rc_universe k)) py_isspace
           (S (EventGen.vdepth (rc_value k))) (rc_cls k) (rc_value k).
 
+(* coverage: the metadata has a sequence group *)
+Definition uses_sequence (u : universe) : bool :=
+  existsb (fun km => existsb (fun e => existsb (fun v => match v_sequence v with Some _ => true | None => false end) (snd e))
+                             (m_elements (snd km))) (u_metas u).
+
 (* which clause excludes the case: 1 class factory, 2 wf_model, 3 fits *)
 Definition guard_clauses (k : rt_case) : list N :=
   (if nodefault_free (rc_cfg k) then [] else [1])
